@@ -94,6 +94,23 @@ def cases(tier, rng):
     for cnt, unit in [(4, 4), (3, 8), (7, 16), (0, 0), (4, 3), (4, 0), (0, 4), (5, 6), (2, 1), (9, 128), (4, 12), (3, F(1, 2)), (-2, 4)]:
         yield Case("bar.run", ["C", 4, 4, [["set_meter", cnt, unit], ["place", C_E, 4]]], "set_meter", kind=("meter", cnt, unit))
         yield Case("bar.run", ["C", cnt, unit, [["place", C_E, 4]]], "ctor_meter", kind=("ctor", cnt, unit))
+    # the beat unit as a Python float (8.0 == 8): accepted exactly like the integer
+    for cnt, unit in [(4, 4), (6, 8), (3, 2), (5, 16), (2, 1), (4, 3), (4, 6), (7, 128)]:
+        yield Case("bar.run", ["C", 4, 4, [["set_meter_f", cnt, unit], ["place", C_E, 4]]], "set_meter/float-unit", kind=("meter", cnt, unit))
+    # adding notes at the start beat an entry ACTUALLY has (after placements and removals the starts are rounded sums):
+    # only that entry changes
+    for _ in range(80 if tier == "quick" else 800):
+        m = rng.choice(METERS[:-1])
+        seq = []
+        for _ in range(rng.randint(3, 14)):
+            k = rng.random()
+            v = rng.choice(VOC)
+            seq.append(("place", v) if k < 0.6 else ("rest", v) if k < 0.75 else ("remove_last", None))
+        ops, _ = mk_ops(seq)
+        n_at = rng.randint(1, 4)
+        for _ in range(n_at):
+            ops.append(["place_at_entry", [["obj", rng.choice(["B", "F#", "Db"]), rng.choice([2, 5, 6])]], rng.randint(0, 8)])
+        yield Case("bar.run", ["C", m[0], m[1], ops], "place_at/actual-start", kind=("placeat", n_at))
     for key in ["H", "Fb", ""]:
         yield Case("bar.run", [key, 4, 4, []], "badkey", kind=("badkey",))
     for _ in range(60 if tier == "quick" else 600):
@@ -209,6 +226,46 @@ def oracle(c, obs):
             return "assigned content is not the converted note container"
         if e4[0][2] != [["A", 4], ["C", 5], ["B", 5]] or e4[1] != e3[1]:
             return "adding notes at a beat did not change exactly that entry"
+        return None
+    if kind[0] == "placeat":
+        if isinstance(obs, Err):
+            return "raised"
+        ops = c["args"][3]
+        n_at = kind[1]
+        first = len(ops) - n_at
+        prev = None
+        for i in range(first - 1, -1, -1):          # the bar before the first place_at
+            if not isinstance(obs[i], Err):
+                prev = obs[i][1][4]; break
+        if prev is None:
+            prev = []
+        for i in range(first, len(ops)):
+            k = ops[i][2]
+            st = obs[i]
+            if k >= len(prev):
+                if isinstance(st, Err) or st[1][4] != prev:
+                    return "adding notes at a beat where no entry starts changed the bar"
+                continue
+            if prev[k][2] is None:
+                if not isinstance(st, Err):
+                    return None if st[1][4] == prev else "adding notes to a rest changed the bar"
+                continue
+            if isinstance(st, Err):
+                return "adding notes to entry %d raised %s" % (k, st.name)
+            cur = st[1][4]
+            if len(cur) != len(prev) or any(cur[j] != prev[j] for j in range(len(prev)) if j != k):
+                return "adding notes at the start beat of entry %d changed another entry" % k
+            if cur[k][:2] != prev[k][:2]:
+                return "adding notes at a beat changed the entry's beat or value"
+            n, o = ops[i][1][0][1], ops[i][1][0][2]
+            have = {(x[0], x[1]) for x in prev[k][2]}
+            want = have | {(n, o)}
+            got = {(x[0], x[1]) for x in cur[k][2]}
+            from harness.common import NATURAL, net
+            pit = lambda x: 12 * x[1] + NATURAL[x[0][0]] + net(x[0])
+            if {pit(x) for x in got} != {pit(x) for x in want}:
+                return "adding notes at the start beat of entry %d did not add exactly those notes to it" % k
+            prev = cur
         return None
     if kind[0] == "badkey":
         return None if isinstance(obs, Err) else "unknown key accepted"
